@@ -598,6 +598,91 @@ def ro_step_correspondence(rep, drv, rng, n_hist, n_ops, small):
 # ----------------------------------------------------------------------------- entry points
 
 
+def library_functions_on_composites(rep):
+    """fs.move / fs.copy / fs.mirror functions applied to a composite that CONTAINS a read-only
+    filesystem (MountFS / MultiFS member, SubFS of a read_only): the wrapped data must not change"""
+    import shutil
+    import fs.copy as C
+    import fs.mirror as MI
+    import fs.move as M
+    from fs.memoryfs import MemoryFS
+    from fs.mountfs import MountFS
+    from fs.multifs import MultiFS
+    from fs.osfs import OSFS
+    from fs.wrap import read_only
+
+    def snap_os(d):
+        out = {}
+        for root, dirs, files in os.walk(d):
+            for f in files:
+                p = os.path.join(root, f)
+                out[os.path.relpath(p, d)] = open(p, "rb").read()
+            for dd in dirs:
+                out[os.path.relpath(os.path.join(root, dd), d) + "/"] = None
+        return out
+
+    for under in ("os", "mem"):
+        for comp in ("mount", "multi", "sub"):
+            for fn in ("move_file", "move_dir", "move_fs", "copy_file-into", "mirror-into"):
+                base = H._tmpdir()
+                try:
+                    if under == "os":
+                        inner = OSFS(base)
+                    else:
+                        inner = MemoryFS()
+                    inner.makedirs("d/e", recreate=True)
+                    inner.writebytes("f", b"keep-f")
+                    inner.writebytes("d/g", b"keep-g")
+                    ro = read_only(inner)
+                    if comp == "mount":
+                        c = MountFS()
+                        c.mount("ro", ro)
+                        pre = "ro/"
+                    elif comp == "multi":
+                        c = MultiFS()
+                        c.add_fs("ro", ro)
+                        pre = ""
+                    else:
+                        c = ro.opendir("/")
+                        pre = ""
+                    other_dir = H._tmpdir()
+                    other = OSFS(other_dir) if under == "os" else MemoryFS()
+                    other.writebytes("x", b"other")
+                    before = snap_os(base) if under == "os" else H.snapshot(inner)
+
+                    def go():
+                        if fn == "move_file":
+                            M.move_file(c, pre + "f", other, "f")
+                        elif fn == "move_dir":
+                            M.move_dir(c, pre + "d", other, "d")
+                        elif fn == "move_fs":
+                            M.move_fs(c, other)
+                        elif fn == "copy_file-into":
+                            C.copy_file(other, "x", c, pre + "f")
+                        else:
+                            MI.mirror(other, c if pre == "" else c.opendir("ro"))
+                    o = R.outcome(go)
+                    after = snap_os(base) if under == "os" else H.snapshot(inner)
+                    rep.evaluations += 1
+                    rep.nontrivial("libfn", under, comp, fn)
+                    if after != before:
+                        rep.violation({"construction": "%s(read_only(%s))" % (comp, under), "function": fn, "outcome": list(o[:2])},
+                                      "fs.%s on %s containing read_only(%s): the wrapped filesystem changed (%s)" % (
+                                          fn, {"mount": "a MountFS", "multi": "a MultiFS", "sub": "a SubFS view"}[comp],
+                                          "OSFS" if under == "os" else "MemoryFS", o[:2]),
+                                      found_input=True,
+                                      signature=("C04/known/move-via-syspath-bypasses-read-only" if (under == "os" and fn.startswith("move"))
+                                                 else "C04/libfn/%s/%s" % (comp, fn)))
+                    for x in (c, other, inner):
+                        try:
+                            x.close()
+                        except Exception:
+                            pass
+                    H.rm_rf(other_dir)
+                finally:
+                    H.rm_rf(base)
+
+
 def run(rep, tier, seed, deep=False):
     drv = vlib.Driver()
     rng = vlib.rng_for(seed, "c04")
@@ -634,6 +719,7 @@ def run(rep, tier, seed, deep=False):
                 t = random_tree(rng)
                 t = [e for e in t if e[0] == "D"] + [e for e in t if e[0] == "F"]
                 runner.construction(kind, t)
+        library_functions_on_composites(rep)
         n = ro_step_correspondence(rep, drv, rng, 6 if quick else 150, 12, small=quick)
         rep.extra["ro_step_cases"] = n
         rep.extra["table_rows"] = len(table.rows)
